@@ -206,3 +206,31 @@ func (monC06) TaskEnd(s *Sim, t *Task) {
 		s.Violate("C06", "create-while-held", "", "%s: result paused=%v failed=%v but %d canary pods were created", t.Label(), gotPaused, gotFailed, len(v.PodCreates))
 	}
 }
+
+// PostCall: once Canary-Failed is true in the store it stays true while that replica set is the
+// canary - whoever set it (the sync itself or kubectl-eds canary fail), and whatever the
+// overwriting sync had read.
+func (monC06) PostCall(s *Sim, c *Call) {
+	t := c.Task
+	if c.Kind != KERS || (c.Verb != "updatestatus" && c.Verb != "patchstatus") || !c.Applied() || c.Pre == nil || c.Out == nil || t.Ctrl != CtrlERS || t.Crashed {
+		return
+	}
+	pre, post := &edsv1.ExtendedDaemonSetReplicaSet{}, &edsv1.ExtendedDaemonSetReplicaSet{}
+	_ = json.Unmarshal(c.Pre, pre)
+	_ = json.Unmarshal(c.Out, post)
+	if !ersCondTrue(&pre.Status, edsv1.ConditionTypeCanaryFailed) || ersCondTrue(&post.Status, edsv1.ConditionTypeCanaryFailed) {
+		return
+	}
+	v := t.View()
+	if v.Role() != "canary" {
+		return
+	}
+	// still the canary in the store?
+	if e := s.Store.GetEDS(post.Namespace, v.EDS.Name); e == nil || e.Status.Canary == nil || e.Status.Canary.ReplicaSet != post.Name {
+		return
+	}
+	s.Violate("C06", "failed-sticky", "overwritten", "%s wrote a status that drops Canary-Failed=True which was set in the store (the sync had read the replica set before it was marked failed)", t.Label())
+	s.Violate("C07", "failure-erased", "", "%s erased the Canary-Failed condition of the canary replica set %s: the rollback will never happen", t.Label(), post.Name)
+	s.Violate("C19", "obeys", "fail-erased", "%s erased the Canary-Failed condition set by kubectl-eds canary fail on %s", t.Label(), post.Name)
+	s.Violate("C02", "failure-erased", "", "%s erased the Canary-Failed condition of %s: the failed template stays live", t.Label(), post.Name)
+}
